@@ -19,7 +19,7 @@ import (
 )
 
 func init() {
-	core.Register(core.Check{ID: "C02", Level: "exploration", Run: func(c *core.Ctx) { runC02(c); reentrancyPass(c, "C02") }})
+	core.Register(core.Check{ID: "C02", Level: "exploration", Run: func(c *core.Ctx) { runC02(c); historyPass(c, "C02"); reentrancyPass(c, "C02") }})
 }
 
 // ---------- (c) toy curve: validity decided by a byte predicate, 3 of 4 candidates rejected ----------
